@@ -258,6 +258,8 @@ STATEFUL = [
     # per-file footnote options: they are handed to the transforms through the settings object
     "---\nmyst:\n  footnote_sort: false\n  footnote_transition: false\n---\nx [^b] [^a]\n\n[^a]: A\n\n[^b]: B\n\nafter\n",
     "---\nmyst:\n  footnote_transition: false\n---\nx [^k]\n\n[^k]: K\n",
+    # the default role selected by a directive of this document ends with the document (as in docutils' own parser)
+    "```{default-role} emphasis\n```\n\n```{eval-rst}\nrst `x` text\n```\n",
 ]
 
 
@@ -473,7 +475,14 @@ def make_project(draw_int, n_docs):
     """Deterministic project description from a small integer stream (draw_int(lo, hi))."""
     files = {}
     names = [f"doc{i}" for i in range(n_docs)]
-    toc = "\n".join(names)
+    # sections (directories) whose pages write the same relative destinations, which name different files for each of them
+    sections = ["s0", "s1", "s2", "s3"]
+    for sec in sections:
+        files[f"{sec}/intro.md"] = f"# Intro of {sec}\n\ntext of {sec}\n"
+        files[f"{sec}/data.txt"] = f"data of {sec}\n"
+        files[f"{sec}/page.md"] = (f"# Page of {sec}\n\n[](intro.md) and [t](intro.md#intro-of-{sec}) and [d](data.txt) and <project:intro.md> "
+                                   f"and [up](../index.md)\n")
+    toc = "\n".join(names + [f"{sec}/{p}" for sec in sections for p in ("intro", "page")])
     files["index.md"] = "# Index\n\n```{toctree}\n" + toc + "\n```\n"
     files["inc.md"] = INC["inc.md"]
     files["inc2.md"] = INC["inc2.md"]
